@@ -61,6 +61,7 @@ func VerifEncryptedWrite() {
 	vp.Assume(err == nil)
 	lit, hex := types.StringLiteral(*esc), types.NewHexLiteral(hb)
 	var obj types.Object
+	cryptFilter := false
 	switch kind {
 	case 0:
 		obj = lit
@@ -72,7 +73,14 @@ func VerifEncryptedWrite() {
 		obj = types.Array{lit, types.Dict{"H": hex}, types.Integer(5)}
 	case 4:
 		l := int64(len(raw))
-		obj = types.StreamDict{Dict: types.Dict{"Length": types.Integer(l), "F": lit}, Raw: append([]byte{}, raw...), StreamLength: &l}
+		sd := types.StreamDict{Dict: types.Dict{"Length": types.Integer(l), "F": lit}, Raw: append([]byte{}, raw...), StreamLength: &l}
+		// an Identity crypt filter exempts the stream DATA from encryption - never the strings of its dictionary
+		cryptFilter = vp.Bool()
+		if cryptFilter {
+			sd.Dict["Filter"] = types.Name("Crypt")
+			sd.FilterPipeline = []types.PDFFilter{{Name: "Crypt"}}
+		}
+		obj = sd
 	case 5:
 		obj = types.Dict{"Type": types.Name("Sig"), "Filter": types.Name("F"), "SubFilter": types.Name("S"),
 			"Contents": types.NewHexLiteral([]byte{0xAB}), "ByteRange": types.Array{types.Integer(0), types.Integer(1), types.Integer(2), types.Integer(3)}, "Reason": lit}
@@ -155,6 +163,14 @@ func VerifEncryptedWrite() {
 		data := []byte(body[8:])
 		n := int(*lp)
 		vp.Assert(n >= 0 && n <= len(data) && string(data[n:]) == "\nendstream\nendobj\n", "/Length is not the number of stream bytes written")
+		if cryptFilter {
+			same := n == len(raw)
+			for i := 0; i < len(raw) && i < n; i++ {
+				same = vp.And(same, data[i] == raw[i])
+			}
+			vp.Assert(same, "data of a stream with an Identity crypt filter was not written as is")
+			break
+		}
 		if aesStreams {
 			vp.Assert(n >= 32 && n%16 == 0, "written stream does not have the shape of AES ciphertext")
 		}
